@@ -373,6 +373,25 @@ func (h *harness) unmCase(c codec, bs []byte, nontrivial bool) {
 	h.out.Case(fmt.Sprintf("unm %d %s", c.sidx, vl.Hex(string(bs))), impl, nontrivial)
 }
 
+// uncCase: UnmarshalRequest on bytes that may carry the trailer (FastRead, then decompress), against the
+// model's read + decompress on the AST as an include tree with payloads.
+func (h *harness) uncCase(bs []byte, nontrivial bool) {
+	var dec *plugin.Request
+	var derr error
+	impl := ""
+	if p, _ := guard(func() { dec, derr = plugin.UnmarshalRequest(bs) }); p {
+		impl = "panic"
+	} else if derr != nil {
+		impl = "err"
+	} else if dv, err := h.sc.ToValue(h.sc.Request, dec); err != nil {
+		impl = "undescribable " + err.Error()
+	} else {
+		impl = "ok " + clip(dv.String())
+	}
+	h.out.Count("codec:unmarshal-request-with-trailer")
+	h.out.Case("unc "+vl.Hex(string(bs)), impl, nontrivial)
+}
+
 // shrinkValue greedily simplifies v while the round-trip oracle keeps failing.
 func (h *harness) shrinkValue(c codec, v *values.Value) *values.Value {
 	fails := func(x *values.Value) bool {
@@ -529,10 +548,11 @@ func (h *harness) treeCase(label string, root *parser.Thrift, nontrivial bool) {
 	t0 := project(root)
 	req := &plugin.Request{Version: "v", Language: "go", OutputPath: "o", AST: root}
 	var treeC, res string
+	var data []byte
 	if p, _ := guard(func() {
 		plugin.VerifCompressThriftInclude(root)
 		treeC = project(root)
-		data, _ := plugin.MarshalRequest(req)
+		data, _ = plugin.MarshalRequest(req)
 		data = plugin.VerifAppendDataTrailer(data, plugin.VerifFeatureCompressInclude)
 		dec, err := plugin.UnmarshalRequest(data)
 		if err != nil {
@@ -548,6 +568,9 @@ func (h *harness) treeCase(label string, root *parser.Thrift, nontrivial bool) {
 	}
 	guard(func() { plugin.VerifDecompressThriftInclude(root) }) // leave the graph as it was
 	h.out.Case("cmp "+t0, clip(treeC)+" | "+clip(res), nontrivial)
+	if data != nil && label != "ast" {
+		h.uncCase(data, nontrivial)
+	}
 }
 
 // ---------------------------------------------------------------- oracle-only checks on trees
